@@ -24,7 +24,9 @@
     other value: the underlying writer's own error. *)
 From Coq Require Import ZArith List Bool Lia.
 From Low Require Import Lib.MachInt Lib.BitSeq Model.SectionWriter Spec.SectionWriterSpec Run.C18
-  Proofs.SectionWriterProofs Proofs.SectionWriterCalls.
+  Model.MemFile Model.SectionReader Spec.SectionReaderSpec Model.SectionPair Spec.SectionPairSpec
+  Proofs.SectionWriterProofs Proofs.SectionWriterCalls Proofs.MemFileProofs Proofs.SectionIOProofs
+  Proofs.SectionStreamProofs Proofs.SectionCountProofs Proofs.SectionPairProofs.
 Import ListNotations.
 Open Scope Z_scope.
 
@@ -122,6 +124,23 @@ Theorem C18_writeat_accounting : forall o n s sc p a,
 Proof. exact writeat_accounting_at. Qed.
 Print Assumptions C18_writeat_accounting.
 
+(** The returned count equals the bytes passed through, call by call over any sequence and any
+    faulty writer: a Write / WriteAt makes at most one call to the underlying writer and returns
+    exactly the number of bytes of that call the writer accepted (0 when nothing reached it);
+    Seek and Size never reach the writer.  ([accepted cnt u] = |firstn cnt (bytes of u)|.) *)
+Theorem C18_count_is_bytes_passed : forall o n sc cs,
+  0 <= o /\ 0 <= n /\ o + n <= 2^63 - 1 ->
+  Forall (fun r => 0 <= fst r) sc -> Forall call_ok cs ->
+  Forall2 (fun c r =>
+    match c with
+    | CWrite _ | CWriteAt _ _ =>
+        (length (ucalls r) <= 1)%nat /\
+        ret_cnt r = zsum (map (accepted (ret_cnt r)) (ucalls r))
+    | CSeek _ _ | CSize => ucalls r = []
+    end) cs (run (NewSectionWriter o n) sc cs).
+Proof. exact section_count_is_bytes. Qed.
+Print Assumptions C18_count_is_bytes_passed.
+
 (** ** io.ErrShortWrite is returned exactly when the request is truncated by, or starts at or
     beyond, the section end -- provided the underlying writer reports no error on this call
     ([head_err sc = 0]); an error of the underlying writer is what is returned. *)
@@ -212,11 +231,8 @@ Print Assumptions C18_size.
 (** refinement / containment: section (10, 4); the writer accepts 1 of 3 bytes with its own
     error, then everything; Write 3 bytes (short count + error, cursor 1), Write 5 bytes (3 land
     at 11, truncated), Write again (refused at the end), seek back, WriteAt crossing the end,
-    Seek past the end, Size. *)
-Definition ex_calls : list call :=
-  [CWrite [1;2;3]; CWrite [4;5;6;7;8]; CWrite [9]; CSeek (-2) 2; CWriteAt [10;11;12] 2;
-   CSeek 7 1; CSize].
-Definition ex_script : list resp := [(1, 2)].
+    Seek past the end, Size
+    (the sequence [ex_calls] and the script [ex_script] are defined at the end of Proofs/SectionWriterCalls.v) *)
 
 Example C18_refinement_nonvacuous :
   (0 <= 10 /\ 0 <= 4 /\ 10 + 4 <= 2^63 - 1) /\
@@ -271,3 +287,171 @@ Proof.
   - rewrite AtToWriter_section by lia. apply reachable_new.
   - vm_compute. repeat split; reflexivity.
 Qed.
+
+(** * Widening: the rest of package iohelper (AtToReader) and its use together with
+    AtToWriter / SectionWriter over one file.
+
+    [Model/SectionReader.v]: AtToReader(r, o) = io.NewSectionReader(r, o, maxOffset-o) with the
+    Go library's SectionReader given a definitional model (trusted base, exercised by every
+    correspondence run).  [Model/MemFile.v]: the in-memory file of the harness: [write_at],
+    [read_at], [byte_at] (0 beyond the end), [file_after init outs] = the file after the
+    underlying calls of a call sequence, the file storing the prefix it accepted.
+    [Spec/SectionReaderSpec.v]: a stream position counted from o, unbounded integers. *)
+
+(** AtToReader(r, o) refines the stream reader from o, for every file, every fault script of
+    the file and every sequence of Read lengths: counts, error classes, bytes delivered and the
+    (absolute offset, length) asked of the file are the specification's. *)
+Theorem C18_at_to_reader : forall o f sc lens,
+  0 <= o <= 2^63 - 1 -> Forall (fun l => 0 <= l < 2^63) lens ->
+  map (fun r => (rcount r, rerr r, rbytes r, rcalls r)) (rrun (AtToReader o) f sc lens)
+  = spec_at_to_reader o f sc lens.
+Proof. exact at_to_reader_refines. Qed.
+Print Assumptions C18_at_to_reader.
+
+(** Over a file that does not fail, the Reads deliver, in order and without gap or overlap, the
+    bytes of the file from offset o on: as many as were asked for in total, or all there are. *)
+Theorem C18_at_to_reader_streams : forall o f lens,
+  0 <= o <= 2^63 - 1 -> zlen f <= 2^63 - 1 -> Forall (fun l => 0 <= l < 2^63) lens ->
+  concat (map rbytes (rrun (AtToReader o) f [] lens)) =
+  firstn (Z.to_nat (zsum lens)) (skipn (Z.to_nat o) f).
+Proof. exact at_to_reader_streams. Qed.
+Print Assumptions C18_at_to_reader_streams.
+
+(** Containment, seen in the file: whatever the call sequence and whatever the file accepts of
+    each call, every byte outside [o, o+n) is what it was (bytes beyond the end count as 0), the
+    file never shrinks and never grows beyond max(old length, o + n). *)
+Theorem C18_file_confined : forall o n sc cs init,
+  0 <= o /\ 0 <= n /\ o + n <= 2^63 - 1 ->
+  Forall (fun r => 0 <= fst r) sc -> Forall call_ok cs ->
+  let file := file_after init (run (NewSectionWriter o n) sc cs) in
+  (forall i, 0 <= i -> (i < o \/ o + n <= i) -> byte_at file i = byte_at init i) /\
+  zlen init <= zlen file <= Z.max (zlen init) (o + n).
+Proof. exact section_file_confined. Qed.
+Print Assumptions C18_file_confined.
+
+(** the file the model leaves is the file the cursor/length machine leaves *)
+Theorem C18_file_refinement : forall o n sc cs init,
+  0 <= o /\ 0 <= n /\ o + n <= 2^63 - 1 ->
+  Forall (fun r => 0 <= fst r) sc -> Forall call_ok cs ->
+  file_after init (run (NewSectionWriter o n) sc cs) =
+  spec_file_after init (spec_section o n sc (map to_acall cs)).
+Proof. exact section_file_refines. Qed.
+Print Assumptions C18_file_refinement.
+
+(** Round trip (how pbcmpl and its users combine the two): any sequence of Writes through
+    AtToWriter(f, o) over a file that accepts everything returns (len, nil) each, leaves the
+    concatenation stored at o, and any sequence of Reads through AtToReader(f, o) then streams
+    it back, followed by whatever the file held beyond it. *)
+Theorem C18_write_read_round_trip : forall o init bufs,
+  0 <= o -> o + zlen (concat bufs) < 2^63 - 1 -> zlen init <= 2^63 - 1 ->
+  let outs := run (AtToWriter o) [] (map CWrite bufs) in
+  let file := file_after init outs in
+  map rets outs = map (fun b => [zlen b; E_nil]) bufs /\
+  file = write_at init o (concat bufs) /\
+  forall lens, Forall (fun l => 0 <= l < 2^63) lens ->
+    concat (map rbytes (rrun (AtToReader o) file [] lens)) =
+    firstn (Z.to_nat (zsum lens)) (concat bufs ++ skipn (Z.to_nat (o + zlen (concat bufs))) init).
+Proof. exact at_to_writer_reader_round_trip. Qed.
+Print Assumptions C18_write_read_round_trip.
+
+(** NewSectionWriter "stops with io.ErrShortWrite after n bytes": a plain stream of Writes through
+    a section (o, n) over a file that accepts everything leaves exactly the first n bytes of the
+    stream at o, and the counts returned add up to min(n, length of the stream). *)
+Theorem C18_stream_truncates : forall o n init bufs,
+  0 <= o /\ 0 <= n /\ o + n <= 2^63 - 1 ->
+  let outs := run (NewSectionWriter o n) [] (map CWrite bufs) in
+  file_after init outs = write_at init o (firstn (Z.to_nat n) (concat bufs)) /\
+  zsum (map ret_cnt outs) = Z.min n (zlen (concat bufs)).
+Proof. exact section_stream_truncates. Qed.
+Print Assumptions C18_stream_truncates.
+
+Example C18_stream_nonvacuous :
+  file_after [9;9;9;9;9;9;9] (run (NewSectionWriter 1 4) [] (map CWrite [[1;2;3]; [4;5;6]; [7]])) = [9;1;2;3;4;9;9] /\
+  map rets (run (NewSectionWriter 1 4) [] (map CWrite [[1;2;3]; [4;5;6]; [7]])) = [[3; 0]; [1; 1]; [0; 1]] /\
+  write_at [9;9;9;9;9;9;9] 1 (firstn (Z.to_nat 4) (concat [[1;2;3]; [4;5;6]; [7]])) = [9;1;2;3;4;9;9].
+Proof. vm_compute. repeat split; reflexivity. Qed.
+
+(** non-vacuity of the widening: a 6-byte file, a section (2, 3) written with a truncated Write
+    after a short faulty one; bytes 0,1 and 5 keep their value; then a stream written at offset 4
+    (beyond the section, extending the file) is read back in chunks of 2, 0 and 5 bytes. *)
+Example C18_file_nonvacuous :
+  file_after [11;12;13;14;15;16] (run (NewSectionWriter 2 3) [(1, 2)] [CWrite [1;2]; CWrite [3;4;5]])
+    = [11;12;1;3;4;16] /\
+  map rets (run (NewSectionWriter 2 3) [(1, 2)] [CWrite [1;2]; CWrite [3;4;5]]) = [[1; 2]; [2; 1]] /\
+  file_after [11;12] (run (AtToWriter 4) [] (map CWrite [[1;2;3]; []; [4]])) = [11;12;0;0;1;2;3;4] /\
+  map rbytes (rrun (AtToReader 4) [11;12;0;0;1;2;3;4] [] [2; 0; 5]) = [[1;2]; []; [3;4]] /\
+  map rerr (rrun (AtToReader 4) [11;12;0;0;1;2;3;4] [] [2; 0; 5; 1]) = [0; 0; E_eof; E_eof] /\
+  map rcount (rrun (AtToReader (2^63 - 2)) [1;2;3] [] [5; 5]) = [0; 0] /\
+  map rcalls (rrun (AtToReader (2^63 - 2)) [1;2;3] [] [5; 5]) = [[(2^63 - 2, 1)]; [(2^63 - 2, 1)]] /\
+  map rcalls (rrun (AtToReader (2^63 - 1)) [1;2;3] [] [5]) = [[]].
+Proof. vm_compute. repeat split; reflexivity. Qed.
+
+(** * Widening: several section writers over one file ("several structures share one file").
+    [Model/SectionPair.v]: two SectionWriter states, every call a [step] on the state of the
+    writer it is addressed to ([(w, call)], w = 0: the first), one underlying writer whose
+    responses are consumed in call order.  [Spec/SectionPairSpec.v]: two independent cursors. *)
+
+(** the interleaved run refines two independent cursor/length machines *)
+Theorem C18_two_sections_refinement : forall o1 n1 o2 n2 sc wcs,
+  0 <= o1 /\ 0 <= n1 /\ o1 + n1 <= 2^63 - 1 -> 0 <= o2 /\ 0 <= n2 /\ o2 + n2 <= 2^63 - 1 ->
+  Forall (fun r => 0 <= fst r) sc -> Forall (fun wc => call_ok (snd wc)) wcs ->
+  map (fun r => (rets r, ucalls r)) (run2 (NewSectionWriter o1 n1, NewSectionWriter o2 n2) sc wcs)
+  = spec_two_sections o1 n1 o2 n2 sc (map to_wacall wcs).
+Proof. exact two_sections_refine. Qed.
+Print Assumptions C18_two_sections_refinement.
+
+(** every call stays inside the section of the writer it is addressed to *)
+Theorem C18_two_sections_containment : forall o1 n1 o2 n2 sc wcs,
+  0 <= o1 /\ 0 <= n1 /\ o1 + n1 <= 2^63 - 1 -> 0 <= o2 /\ 0 <= n2 /\ o2 + n2 <= 2^63 - 1 ->
+  Forall (fun r => 0 <= fst r) sc -> Forall (fun wc => call_ok (snd wc)) wcs ->
+  Forall2 (fun wc r =>
+      if fst wc =? 0
+      then Forall (fun u => o1 <= fst u /\ fst u + zlen (snd u) <= o1 + n1) (ucalls r)
+      else Forall (fun u => o2 <= fst u /\ fst u + zlen (snd u) <= o2 + n2) (ucalls r))
+    wcs (run2 (NewSectionWriter o1 n1, NewSectionWriter o2 n2) sc wcs).
+Proof. exact two_sections_contained. Qed.
+Print Assumptions C18_two_sections_containment.
+
+(** in the file: a byte outside both sections never changes (bytes beyond the end count as 0) *)
+Theorem C18_two_sections_file_confined : forall o1 n1 o2 n2 sc wcs init i,
+  0 <= o1 /\ 0 <= n1 /\ o1 + n1 <= 2^63 - 1 -> 0 <= o2 /\ 0 <= n2 /\ o2 + n2 <= 2^63 - 1 ->
+  Forall (fun r => 0 <= fst r) sc -> Forall (fun wc => call_ok (snd wc)) wcs ->
+  0 <= i -> (i < o1 \/ o1 + n1 <= i) -> (i < o2 \/ o2 + n2 <= i) ->
+  byte_at (file_after init (run2 (NewSectionWriter o1 n1, NewSectionWriter o2 n2) sc wcs)) i
+  = byte_at init i.
+Proof. exact two_sections_file_confined. Qed.
+Print Assumptions C18_two_sections_file_confined.
+
+(** non-interference: outside the second section, the file is exactly what the first writer's own
+    calls made of it ([outs_of_first wcs outs]: the results of the calls addressed to the first
+    writer) -- the second writer's calls, however interleaved, leave no trace there *)
+Theorem C18_two_sections_noninterference : forall o1 n1 o2 n2 sc wcs init i,
+  0 <= o1 /\ 0 <= n1 /\ o1 + n1 <= 2^63 - 1 -> 0 <= o2 /\ 0 <= n2 /\ o2 + n2 <= 2^63 - 1 ->
+  Forall (fun r => 0 <= fst r) sc -> Forall (fun wc => call_ok (snd wc)) wcs ->
+  0 <= i -> (i < o2 \/ o2 + n2 <= i) ->
+  let outs := run2 (NewSectionWriter o1 n1, NewSectionWriter o2 n2) sc wcs in
+  byte_at (file_after init outs) i = byte_at (file_after init (outs_of_first wcs outs)) i.
+Proof. exact two_sections_first_alone. Qed.
+Print Assumptions C18_two_sections_noninterference.
+
+(** the file the interleaved model leaves is the file the two cursor machines leave *)
+Theorem C18_two_sections_file_refinement : forall o1 n1 o2 n2 sc wcs init,
+  0 <= o1 /\ 0 <= n1 /\ o1 + n1 <= 2^63 - 1 -> 0 <= o2 /\ 0 <= n2 /\ o2 + n2 <= 2^63 - 1 ->
+  Forall (fun r => 0 <= fst r) sc -> Forall (fun wc => call_ok (snd wc)) wcs ->
+  file_after init (run2 (NewSectionWriter o1 n1, NewSectionWriter o2 n2) sc wcs) =
+  spec_file_after init (spec_two_sections o1 n1 o2 n2 sc (map to_wacall wcs)).
+Proof. exact two_sections_file_refines. Qed.
+Print Assumptions C18_two_sections_file_refinement.
+
+(** non-vacuity: adjacent sections (1, 2) and (3, 2) of a 6-byte file; the first writer writes 3
+    bytes (truncated to its 2), the second writes 1 and then 2 (truncated to 1) with the first
+    writer's refused Write in between; bytes 0 and 5 keep their value; dropping the second
+    writer's calls changes nothing at positions 0..2. *)
+Example C18_two_sections_nonvacuous :
+  let wcs := [(0, CWrite [1;2;3]); (1, CWrite [4]); (0, CWrite [5]); (1, CWrite [6;7])] in
+  let outs := run2 (NewSectionWriter 1 2, NewSectionWriter 3 2) [] wcs in
+  map rets outs = [[2; 1]; [1; 0]; [0; 1]; [1; 1]] /\
+  map ucalls outs = [[(1, [1;2])]; [(3, [4])]; []; [(4, [6])]] /\
+  file_after [9;9;9;9;9;9] outs = [9;1;2;4;6;9] /\
+  file_after [9;9;9;9;9;9] (outs_of_first wcs outs) = [9;1;2;9;9;9].
+Proof. vm_compute. repeat split; reflexivity. Qed.
